@@ -133,7 +133,9 @@ def stdIncludes : List (BitVec 16) → List (BitVec 16) → Bool
 
 /-- `is_subsequence_of(seg1, seg2)` -/
 def isSubsequenceOf (s1 s2 : Seg) : Bool :=
-  if s1.secs.length < s2.secs.length then stdIncludes s2.secs s1.secs else false
+  if save_subseq_shorter (BitVec.ofNat 64 s1.secs.length) (BitVec.ofNat 64 s2.secs.length) then
+    stdIncludes s2.secs s1.secs
+  else false
 
 /-- first loop of `get_ordered_segments`: bring offset-0 segments to the front -/
 def orderFront (wl : Array Seg) : M (Array Seg) := do
@@ -146,11 +148,11 @@ def orderFront (wl : Array Seg) : M (Array Seg) := do
       match wl[i]? with
       | none => throw (.vecOob "get_ordered_segments/worklist[i]")
       | some si =>
-        if i != nextSlot && si.offsetSet && si.offset == 0 then
+        if save_gos_front (BitVec.ofNat 64 i) (BitVec.ofNat 64 nextSlot) si.offsetSet si.offset then
           match wl[nextSlot]? with
           | none => throw (.vecOob "get_ordered_segments/worklist[nextSlot]")
           | some sn =>
-            let nextSlot := if sn.offset == 0 then nextSlot + 1 else nextSlot
+            let nextSlot := if save_gos_slot_zero sn.offset then nextSlot + 1 else nextSlot
             match wl[nextSlot]? with
             | none => throw (.vecOob "get_ordered_segments/swap")
             | some sn2 =>
@@ -186,7 +188,7 @@ def calcSegAlign (secs : List SecBuf) (g : Seg) : M Seg :=
   g.secs.foldlM (fun g idx =>
     match secs[idx.toNat]? with
     | none => throw (.vecOob "calc_segment_alignment/sections_[index]")
-    | some s => pure (if BitVec.ult g.align s.addrAlign then { g with align := s.addrAlign } else g)) g
+    | some s => pure (if save_csa_raise s.addrAlign g.align then { g with align := s.addrAlign } else g)) g
 
 /-- state of `write_segment_data`'s loop -/
 structure WsdSt where
@@ -359,6 +361,16 @@ structure SaveRes where
   os : OStream
   ok : Bool
 
+/-- `is_still_good` after the three layout passes of `save`:
+    `bool is_still_good = layout_segments_and_their_sections();`
+    `is_still_good = is_still_good && layout_sections_without_segments();`
+    `is_still_good = is_still_good && layout_section_table();`
+    `segsOk` is the result of the first pass; the other two passes always return `true` (their generated
+    `return` expressions).  With `segsOk = false` the `&&` do not evaluate their right operands — the
+    model does not run those passes either. -/
+def saveGoodAfterLayout (segsOk : Bool) : Bool :=
+  save_good2 (save_good1 (save_good_init segsOk) lsws_result) lst_result
+
 /-- One stream operation of the write phase of `save` (C16). -/
 inductive StreamOp
   | seekp (p : Int)
@@ -384,28 +396,30 @@ def saveWrite (o : Obj) (h : Bytes) (secs : List SecBuf) (segs : List Seg) (pos 
   -- save_header: header->save(stream) = seekp, write, `return stream.good()`
   let os := (os.seekp (trApply o.trans 0)).write h
   let o := { o with hdr := some h, secs := secs, segs := segs, curPos := pos }
+  -- is_still_good = is_still_good && save_header( stream );
   let good := match c with
-    | .c32 => save_header_result32 (!os.fail)
-    | .c64 => save_header_result (!os.fail)
+    | .c32 => save_good3 (saveGoodAfterLayout true) (save_header_result32 (!os.fail))
+    | .c64 => save_good3 (saveGoodAfterLayout true) (save_header_result (!os.fail))
   if !good then { obj := o, os := os, ok := save_result good os.fail } else
   -- save_sections
   let shoff := Hdr.e_shoff c e h
   let (secs, ls) := residentForSave c o.trans secs { st := o.stream } []
   let o := { o with secs := secs, stream := ls.st }
   let os := secs.foldl (saveSection c e shoff (Hdr.e_shentsize c e h)) os
-  let good := save_sections_result
+  let good := save_good4 good save_sections_result
   if !good then { obj := o, os := os, ok := save_result good os.fail } else
   -- save_segments
   let os := segs.foldl (saveSegment c e (Hdr.e_phoff c e h) (Hdr.e_phentsize c e h)) os
-  let good := save_segments_result
+  let good := save_good5 good save_segments_result
   { obj := o, os := os, ok := save_result good os.fail }
 
 /-- `elfio::save(std::ostream&)` -/
 def save (o : Obj) (os : OStream) : M SaveRes := do
+  -- `if ( !stream || header == nullptr ) return false;`
+  if save_entry_refused os.fail o.hdr.isSome then pure { obj := o, os := os, ok := false } else
   match o.hdr with
-  | none => pure { obj := o, os := os, ok := false }
+  | none => pure { obj := o, os := os, ok := false }      -- not reached: refused above
   | some h =>
-  if os.fail then pure { obj := o, os := os, ok := false } else
   let c := o.cls; let e := o.enc
   -- `for (sec : sections_) sec->get_data();` : lazily loaded data is read before the layout
   let (secs0, ls0) := allResident c o.trans o.secs { st := o.stream } []
@@ -413,9 +427,9 @@ def save (o : Obj) (os : OStream) : M SaveRes := do
   let nseg := o.segs.length % 65536
   let nsec := o.secs.length % 65536
   let h := Hdr.set_phnum c e h nseg
-  let h := Hdr.set_phoff c e h (if nseg > 0 then (Hdr.e_ehsize c e h).toNat else 0)
+  let h := Hdr.set_phoff c e h (save_phoff (BitVec.ofNat 16 nseg) (Hdr.e_ehsize c e h)).toNat
   let h := Hdr.set_shnum c e h nsec
-  let h := Hdr.set_shoff c e h 0
+  let h := Hdr.set_shoff c e h save_shoff0.toNat
   let pos0 := save_cursor0 (Hdr.e_ehsize c e h) (Hdr.e_phentsize c e h) (Hdr.e_phnum c e h)
   -- calc_segment_alignment
   let segs ← o.segs.mapM (calcSegAlign o.secs)
@@ -432,7 +446,8 @@ def save (o : Obj) (os : OStream) : M SaveRes := do
   match ← ordered.foldlM step (some (lay0, [])) with
   | none =>
     -- layout aborted: the object keeps whatever was laid out so far (not observable through save's result)
-    pure { obj := { o with hdr := some h, segs := segs, curPos := pos0 }, os := os, ok := false }
+    pure { obj := { o with hdr := some h, segs := segs, curPos := pos0 }, os := os,
+           ok := save_result (saveGoodAfterLayout false) os.fail }
   | some (lay, done) =>
     -- put the updated segments back at their indices
     let segs := segs.map fun g => (done.find? (fun d => d.index == g.index)).getD g
